@@ -5,5 +5,5 @@ CONSTANTS
   TamperLen = 100
   Lens = {0, 8, 100, 65535, 65536}
   Passwords = {"empty", "ascii", "utf8", "long", "badutf8"}
-  WrongPwd = {"char", "case", "longer", "shorter", "empty", "other", "lowbyte", "badbyte"}
+  WrongPwd = {"char", "case", "longer", "shorter", "empty", "other", "lowbyte", "badbyte", "nulsuffix", "nulpad"}
 INVARIANTS RecipientsRecover OnlyRecipients VerifiesExactlyWhenGenuine BundleOnlyWithPassword Emit
